@@ -40,7 +40,10 @@ func materialisable(t types.Type) bool {
 func (vc *VC) getValues(o *Obl, extra []string, terms []string, dir string) (map[string]string, bool) {
 	var sb strings.Builder
 	sb.WriteString("(set-option :produce-models true)\n(set-logic ALL)\n")
-	sb.WriteString(vc.e.preamble(vc.usesMS(o.CtxLen, o.Goal)))
+	sb.WriteString(vc.preambleFor(vc.usesMS(o.CtxLen, o.Goal)))
+	for _, d := range vc.extraDecls {
+		sb.WriteString(d + "\n")
+	}
 	for _, c := range vc.cmds[:o.CtxLen] {
 		sb.WriteString(c)
 		sb.WriteByte('\n')
@@ -246,7 +249,12 @@ func (e *Engine) replayModel(res *FuncResult, o *Obl, repo, oracleDir, dir strin
 		out.Comment = "no model (solver status " + o.Status + ")"
 		return out
 	}
-	if fn.Signature.Recv() == nil && fn.Parent() != nil {
+	varName := ""
+	if strings.HasPrefix(res.Key, "var ") {
+		bk := baseKey(res.Key)
+		varName = bk[strings.LastIndex(bk, ".")+1:]
+	}
+	if fn.Signature.Recv() == nil && fn.Parent() != nil && varName == "" {
 		out.Comment = "anonymous function"
 		return out
 	}
@@ -311,6 +319,13 @@ func (e *Engine) replayModel(res *FuncResult, o *Obl, repo, oracleDir, dir strin
 			}
 			extra = append(extra, fmt.Sprintf("(= %s %d)", v.sLen(), n))
 			mem := smtName("M."+typeKey(sl.Elem())) + "!0"
+			if _, declared := vc.sorts[mem]; !declared {
+				ls := vc.e.layout(sl.Elem())
+				d := "(declare-const " + mem + " " + ArrSort("Int", ArrSort("Int", ls[0].Sort)) + ")"
+				if !containsStr(vc.extraDecls, d) {
+					vc.extraDecls = append(vc.extraDecls, d)
+				}
+			}
 			for i := 0; i < n; i++ {
 				terms = append(terms, fmt.Sprintf("(select (select %s %s) (+ %s %d))", mem, v.sBase(), v.sOff(), i))
 				slots = append(slots, slot{p.name, i, sl.Elem()})
@@ -372,6 +387,9 @@ func (e *Engine) replayModel(res *FuncResult, o *Obl, repo, oracleDir, dir strin
 	}
 	call := ""
 	fname := fn.Name()
+	if varName != "" {
+		fname = varName
+	}
 	oracleName := "verifOracle_" + fname
 	if fn.Signature.Recv() != nil {
 		rt := fn.Signature.Recv().Type()
@@ -390,11 +408,15 @@ func (e *Engine) replayModel(res *FuncResult, o *Obl, repo, oracleDir, dir strin
 		rnames = append(rnames, fmt.Sprintf("r%d", i))
 	}
 	hasOracle := oracleExists(oracleDir, oracleName)
+	ostmts, nchecked, skipped := e.goOracle(vc.fc, fn)
 	var src strings.Builder
-	fmt.Fprintf(&src, "package %s\n\nimport (\n\t\"math\"\n\t\"testing\"\n)\n\nvar _ = math.NaN\n\n", pkgName)
+	fmt.Fprintf(&src, "package %s\n\nimport (\n\t\"math\"\n\t\"reflect\"\n\t\"testing\"\n\t\"unsafe\"\n)\n\nvar _ = math.NaN\nvar _ = reflect.TypeOf\nvar _ unsafe.Pointer\n\n", pkgName)
 	fmt.Fprintf(&src, "// replay of obligation %s\nfunc TestVerifReplayModel(t *testing.T) {\n", o.Name)
 	src.WriteString("\tdefer func() {\n\t\tif r := recover(); r != nil {\n\t\t\tt.Fatalf(\"REPLAY-FAIL panic: %v\", r)\n\t\t}\n\t}()\n")
 	src.WriteString(strings.Join(decl, "\n") + "\n")
+	for _, a := range args {
+		fmt.Fprintf(&src, "\tvar old_%s interface{} = verifSnapshot(%s)\n\t_ = old_%s\n", strings.TrimPrefix(a, "in_"), a, strings.TrimPrefix(a, "in_"))
+	}
 	if nres > 0 {
 		fmt.Fprintf(&src, "\t%s := %s\n", strings.Join(rnames, ", "), call)
 		fmt.Fprintf(&src, "\tt.Logf(\"REPLAY-RESULT %%v\", []interface{}{%s})\n", strings.Join(rnames, ", "))
@@ -404,7 +426,15 @@ func (e *Engine) replayModel(res *FuncResult, o *Obl, repo, oracleDir, dir strin
 	if hasOracle {
 		fmt.Fprintf(&src, "\tif err := %s(%s); err != nil {\n\t\tt.Fatalf(\"REPLAY-FAIL oracle: %%v\", err)\n\t}\n", oracleName, strings.Join(append(args, rnames...), ", "))
 	}
+	if nchecked > 0 {
+		src.WriteString("\tvar fails []string\n" + ostmts)
+		src.WriteString("\tif len(fails) > 0 {\n\t\tt.Fatalf(\"REPLAY-FAIL the contract is violated on the real code: %v\", fails)\n\t}\n")
+	}
+	for _, sk := range skipped {
+		fmt.Fprintf(&src, "\t// clause not executable: %s\n", strings.ReplaceAll(sk, "\n", " "))
+	}
 	src.WriteString("}\n")
+	src.WriteString(oraclePrelude)
 	out.Source = src.String()
 	out.Inputs = strings.Join(decl, "\n")
 	// run it
